@@ -4,4 +4,5 @@
 #include "net/socket_b.hpp"
 #define SIM_STREAM_TYPE ::sim::socket_b
 #define SIM_MAKE_FN make_client_B
+#define SIM_MAKE_MINI_FN make_mini_B
 #include "client_impl.inc"
